@@ -74,6 +74,15 @@ def make_case(rng, role_kind, cell, i, max_rows=14):
         tt = gen_data(rng, ncols, nt, kind, cov_mode)
         if valid_data(tc, tt, roles):
             break
+    if roles[1] is not None and i % 6 == 4:
+        # a denominator whose sample mean is EXACTLY one in the control group (weights normalised to mean one, session
+        # counts averaging to one): a short cut keyed on `mean(denom) == 1` instead of `denom is None` shows here
+        for t in (tc,):
+            j = int(roles[1][1:])
+            mu = sum(r[j] for r in t) / len(t)
+            if mu != 0:
+                for r in t:
+                    r[j] = r[j] / mu
     cl = F(rng.randint(1, 99), 100) if i % 4 else F(rng.choice([1, 5, 50, 90, 95, 99]), 100)
     alt, ev, ut = cell
     return dict(role_kind=role_kind, roles=roles, tc=tc, tt=tt, alt=alt, ev=ev, ut=ut, cl=cl,
@@ -221,3 +230,67 @@ def run_cases(chk, cases, family=1, with_gen=True, with_spec=True, label=""):
                             pvalue=str(real[8])[:60], statistic=str(real[9])[:60]))
         results.append((c, real, gens[i], specs[i]))
     return results
+
+
+def float_far_tail(chk, n, clauses=("textbook", "duality", "swap")):
+    """Float mode, strongly significant effects (|statistic| 6..14, p-values 1e-9..1e-40): p-values are compared
+    RELATIVELY — a p-value computed by cancellation (`1 - cdf` instead of `sf`) is accurate to 1e-16 absolutely and
+    wrong (or exactly 0) relatively.  textbook: against scipy's survival functions; duality: two-sided = 2 * min of
+    the one-sided values; swap: exchanging the roles and mirroring the alternative keeps the p-value."""
+    import math
+
+    import numpy as np
+    import pyarrow as pa
+    import scipy.stats as st
+    import tea_tasting as tt
+    rng = np.random.default_rng(chk.seed + 91)
+
+    def rel(a, b):
+        return abs(a - b) <= 1e-6 * max(abs(a), abs(b)) or (a == 0 and b == 0)
+
+    for k in range(n):
+        ev, ut = bool(k % 2), bool((k // 2) % 2)
+        nc, nt = int(rng.integers(40, 400)), int(rng.integers(40, 400))
+        target = float(rng.uniform(6, 14)) * (1 if k % 3 else -1)
+        xc = rng.normal(10, 1, nc)
+        xt = rng.normal(10, 1, nt)
+        se0 = math.sqrt(xc.var(ddof=1) / nc + xt.var(ddof=1) / nt)
+        xt = xt + (xc.mean() - xt.mean()) + target * se0
+        data = pa.table({"variant": [0] * nc + [1] * nt, "x": np.concatenate([xc, xt])})
+        res = {}
+        try:
+            for alt in ALTS:
+                m = tt.Mean("x", alternative=alt, equal_var=ev, use_t=ut)
+                res[alt] = m.analyze(data, 0, 1, "variant")
+                res["swap:" + alt] = m.analyze(data, 1, 0, "variant")
+        except Exception as ex:  # noqa: BLE001
+            chk.fail("analysis raised on plain float data with a strong effect", dict(error=repr(ex)))
+            continue
+        z = float(res["two-sided"].statistic)
+        vc, vt = xc.var(ddof=1), xt.var(ddof=1)
+        if ev:
+            df = nc + nt - 2
+        else:
+            df = (vc / nc + vt / nt) ** 2 / ((vc / nc) ** 2 / (nc - 1) + (vt / nt) ** 2 / (nt - 1))
+        dist = st.t(df) if ut else st.norm()
+        inp = dict(equal_var=ev, use_t=ut, n=[nc, nt], statistic=z, control=xc.tolist()[:5] + ["..."],
+                   seed=chk.seed, case=k)
+        chk.case(("far-tail", ev, ut, round(target, 2)))
+        chk.branch("far-tail")
+        pg, pl, p2 = (float(res[a].pvalue) for a in ("greater", "less", "two-sided"))
+        if "textbook" in clauses:
+            exp = dict(greater=float(dist.sf(z)), less=float(dist.cdf(z)), two=float(2 * dist.sf(abs(z))))
+            for name, got, e in (("greater", pg, exp["greater"]), ("less", pl, exp["less"]), ("two-sided", p2, exp["two"])):
+                if e > 1e-300 and not rel(got, e):
+                    chk.fail(f"far tail: the {name} p-value differs RELATIVELY from the textbook tail probability",
+                             dict(input=inp, observed=got, expected=e))
+        if "duality" in clauses:
+            if not rel(p2, 2 * min(pg, pl)):
+                chk.fail("far tail: the two-sided p-value is not twice the smaller one-sided p-value",
+                         dict(input=inp, two_sided=p2, greater=pg, less=pl))
+        if "swap" in clauses:
+            for a, b in (("greater", "less"), ("less", "greater"), ("two-sided", "two-sided")):
+                if not rel(float(res[a].pvalue), float(res["swap:" + b].pvalue)):
+                    chk.fail("far tail: exchanging control and treatment (alternative mirrored) changes the p-value",
+                             dict(input=inp, alternative=a, original=float(res[a].pvalue),
+                                  swapped=float(res["swap:" + b].pvalue)))
